@@ -68,8 +68,54 @@ def gen_boundary(rng, with_constraints):
     return d
 
 
+def gen_tie(rng, with_constraints):
+    """Exact ties: integer data built on Pythagorean triples so that the first truncated-CG move (non-positive curvature along the
+    gradient) reaches the trust-region boundary and a simple bound at exactly the same step length; linear inequalities hold with
+    some slack at that point and limit the following rotation."""
+    a, b, cc = [(3, 4, 5), (6, 8, 10), (5, 12, 13), (8, 15, 17)][int(rng.integers(0, 4))]
+    n = int(rng.integers(3, 5))
+    perm = rng.permutation(n)
+    sg = rng.choice([-1.0, 1.0], size=2)
+    s1 = np.zeros(n)
+    s1[perm[0]], s1[perm[1]] = sg[0] * a, sg[1] * b       # the point reached: |s1| = cc
+    grad = -s1.copy()
+    for _ in range(20):
+        A = rng.integers(-5, 6, (n, n)).astype(float)
+        H = np.triu(A) + np.triu(A, 1).T
+        if s1 @ H @ s1 <= 0:
+            break
+    else:
+        H = np.zeros((n, n))
+    xl, xu = np.full(n, -np.inf), np.full(n, np.inf)
+    i0 = perm[int(rng.integers(0, 2))]
+    if s1[i0] > 0:
+        xu[i0] = s1[i0]
+    else:
+        xl[i0] = s1[i0]
+    d = dict(n=n, grad=grad, H=H, xl=xl, xu=xu, delta=float(cc), improve_tcg=True)
+    if with_constraints:
+        mub = int(rng.integers(1, 3))
+        aub = rng.integers(-3, 4, (mub, n)).astype(float)
+        bub = np.maximum(aub @ s1, 0.0) + rng.integers(1, 6, mub).astype(float)
+        d.update(aub=aub, bub=bub, aeq=np.zeros((0, n)), beq=np.zeros(0))
+    return d
+
+
+def gen_tiny(rng, with_constraints):
+    """Badly scaled data: tiny gradients / Hessians (objective values of the order of 1e-16) with ordinary bounds and radius."""
+    d = gen_boundary(rng, with_constraints)
+    f = 10.0 ** rng.uniform(-10, -6)
+    d["grad"] = d["grad"] * f
+    d["H"] = d["H"] * f * 10.0 ** rng.uniform(-2, 2)
+    return d
+
+
 def gen(rng, with_constraints):
     u = rng.random()
+    if u < 0.03:
+        return gen_tiny(rng, with_constraints)
+    if u < 0.13:
+        return gen_tie(rng, with_constraints)
     if u < 0.3:
         return gen_boundary(rng, with_constraints)
     if u < 0.65:
